@@ -52,7 +52,12 @@ def _wrap_spin(mod):
   from vf.world import Violation, SpinDetected, ApiRaised
   inner = mod.execute
 
+  last = os.environ.get('VERIF_LASTPLAN')      # debugging aid: the plan being executed is written here first
+
   def execute(plan):
+    if last:
+      with open(last, 'w') as f:
+        json.dump(plan, f)
     try:
       return inner(plan)
     except SpinDetected as e:
